@@ -147,6 +147,10 @@ def directed_prefixes(rng: random.Random, pool: list) -> list[list[dict]]:
          {"op": "normalize", "i": len(pool), "p": P, "x": x}, {"op": "compose", "i": j, "p": P, "x": x, "r": 1, "shape": 3},
          {"op": "normalize", "i": len(pool) + 1, "p": Q, "x": x}, {"op": "partial_early", "i": len(pool), "p": Q, "x": x},
          {"op": "at", "i": len(pool) + 1, "p": Q, "x": x}],
+        # a failed (or successful) evaluation, other members used elsewhere, then the very same Point object again
+        [{"op": "at", "i": j, "p": P, "x": x}] + [{"op": "at", "i": k_, "p": Q, "x": x} for k_ in range(len(pool)) if k_ != j]
+        + [{"op": "at", "i": j, "p": P, "x": x}, {"op": "partial_early", "i": j, "p": P, "x": x},
+           {"op": "partial", "i": i, "p": Q, "x": x}, {"op": "at", "i": j, "p": P, "x": x}],
         # located differentials the caller kept, queried after the object that made them moved on
         [{"op": "pobj_new", "i": j, "j": 0, "p": P, "x": x, "kind": "FE"}, {"op": "ld_new", "i": j, "j": 0, "k": 0, "p": P, "x": x},
          {"op": "ld_new", "i": j, "j": 0, "k": 1, "p": Q, "x": x}, {"op": "ld_query", "i": j, "k": 0, "p": P, "x": x},
@@ -289,6 +293,7 @@ class Runner:
         self.pobjs: dict[int, object] = {}
         self.pobj_src: dict[int, tuple] = {}
         self.pobj_expr_called: dict[int, bool] = {}
+        self.points: dict[str, object] = {}  # Point objects the caller kept, by how they were written
         self.lds: dict[int, object] = {}    # LocatedDifferential objects the caller kept
         self.ld_src: dict[int, tuple] = {}
         self.returned: list = []            # expression objects handed out by earlier operations
@@ -324,7 +329,12 @@ class Runner:
             self.extra_texts.append(re.sub(r"@(\d+)", lambda m: "@" + str(int(m.group(1)) + off), wire.expr(new, ids={})))
             return ("ok", None)
         x = wire.fresh_str(op.get("x", "x"))
-        p = wire.build_point(op["p"])
+        # callers keep their Point objects: the same text is the same object throughout a history (two thirds of the
+        # time - the rest are equal but newly built points)
+        if op["p"] in self.points and len(op["p"]) % 3:
+            p = self.points[op["p"]]
+        else:
+            p = self.points[op["p"]] = wire.build_point(op["p"])
         self.last_point = (p, op["p"])        # the caller's own Point object, and how it was written
         if k in ("at", "fail_missing"):
             return call(e.at, p)
